@@ -130,15 +130,19 @@ MoveBefore(u, p) ==
   ELSE UNCHANGED svars
 
 \* renumber per kind in list order, all mentions follow simultaneously
-ResetAliases ==
+\* functional form (also used by the extraction operations of SchemaOps): the content after renumbering, and the alias map
+ResetNames(ord, c) ==
   LET RECURSIVE Assign(_, _)
-      Assign(i, acc) == IF i > Len(order) THEN acc
-                        ELSE Assign(i + 1, acc @@ (order[i] :> NewName(cst[order[i]].kind, {acc[x] : x \in DOMAIN acc})))
-      newAlias == Assign(1, <<>>)
-      map == [a \in {cst[u].alias : u \in {x \in Ids : newAlias[x] # cst[x].alias}} |->
-                newAlias[CHOOSE u \in Ids : cst[u].alias = a]]
-  IN /\ cst' = [u \in Ids |-> [RenRec(cst[u], map) EXCEPT !.alias = newAlias[u]]]
-     /\ UNCHANGED <<order, trk>>
+      Assign(i, acc) == IF i > Len(ord) THEN acc
+                        ELSE Assign(i + 1, acc @@ (ord[i] :> NewName(c[ord[i]].kind, {acc[x] : x \in DOMAIN acc})))
+  IN Assign(1, <<>>)
+ResetMap(ord, c) ==
+  LET newAlias == ResetNames(ord, c) IN
+  [a \in {c[u].alias : u \in {x \in DOMAIN c : newAlias[x] # c[x].alias}} |-> newAlias[CHOOSE u \in DOMAIN c : c[u].alias = a]]
+ResetF(ord, c) ==
+  LET newAlias == ResetNames(ord, c)  map == ResetMap(ord, c)
+  IN [u \in DOMAIN c |-> [RenRec(c[u], map) EXCEPT !.alias = newAlias[u]]]
+ResetAliases == cst' = ResetF(order, cst) /\ UNCHANGED <<order, trk>>
 
 \* DeleteDuplicates: a constituent with some content absorbs every other constituent of the same kind with identical
 \* definition, convention, term and text; the copy is erased (also when tracked: merge operations bypass the tracking
